@@ -169,6 +169,19 @@ CLAIMED = {
         technique="static analysis: dual sibling comparison of call skeletons, must-facts guards, who-may-call, sign-case evaluation of "
         "an integer expression",
     ),
+    "C10": dict(
+        text="Static analysis of the current source. Decides: every key the Interfile image header writer (and its exam-information "
+        "helpers) emits is registered or explicitly ignored by the header reader classes with the same vectorisation, after the repo's "
+        "keyword normalisation (the checker's mirror is tied to the source); read_data_1d tests the stream after the raw read on every "
+        "path to success and the image readers test read_data's result (a short file is reported); read_data and write_data handle the "
+        "same NumericType enumerators, all but BIT/UNKNOWN_TYPE; the writer's first-pixel offset is voxel_size*min_index+origin and the "
+        "reader recomputes origin = offset - voxel_size*min_index' with matching axes (first voxel position preserved); the scale factor "
+        "for scaled-integer output pairs each data extreme with the output limit of the same sign and has a safety factor > 1. NOT "
+        "decided: value preservation/quantisation bounds numerically, exam-info values through formatting/parsing, dynamic/parametric "
+        "container bookkeeping.",
+        technique="static analysis: writer/reader key-table agreement, must-pass-through, switch exhaustiveness and sibling agreement, "
+        "expression-shape algebra",
+    ),
 }
 
 NOT_APPLICABLE = {
